@@ -1,5 +1,5 @@
 """C12 — sessions map 1:1 to peers, live while referenced; everything is released (DESIGN.md §4 C12, design/C12.md)."""
-import os, sys
+import os, re, sys
 from vlib import common as C
 from vlib.simlib import SIM_WRAPS
 
@@ -22,7 +22,15 @@ MANIFEST = {
             "closed the connection (referenced_session_survives_pass), a session with an open connection is reclaimed only after the "
             "timeout (open_session_reclaimed_only_after_timeout), the partly received PDU is a ledger object that hangs off a live "
             "session in every reachable state and is released with it — timeout, closed connection, teardown "
-            "(partial_pdu_hangs_off_live_session, reclaim_releases_partial_pdu, teardown_ledger_empty); a Lean-verified monitor ledgerOk (ledgerOk_iff) judges the REAL allocation trace recorded through wrapped "
+            "(partial_pdu_hangs_off_live_session, reclaim_releases_partial_pdu, teardown_ledger_empty).  M also covers the "
+            "Confirmables an application sends on a server session (coap_send_pdu / coap_session_delay_pdu / coap_session_connected / "
+            "coap_wait_ack / the ACK, RST and bad-packet branches of coap_dispatch with its cleanup: / the give-up of coap_retransmit): "
+            "a Confirmable that waits for its NSTART slot hangs off the session's delay queue WITHOUT a reference "
+            "(delayed_send_takes_no_reference), gets exactly one when coap_session_connected hands the same node to coap_wait_ack "
+            "(flush_takes_reference), and ANY reply that matches the outstanding Confirmable — empty ACK, ACK with a request code, "
+            "ACK with an invalid code class, Reset — leaves the same state: node, PDU and reference released (any_reply_ends_exchange); "
+            "all theorems above (ref = holders, reclaimed after the timeout, ledger empty after teardown) are proved over histories "
+            "that contain these events; a Lean-verified monitor ledgerOk (ledgerOk_iff) judges the REAL allocation trace recorded through wrapped "
             "coap_malloc_type/free_type.  M is tied to the compiled code by exact trace equality (session->ref, last_rx_tx and the "
             "notifications each peer received, partial_read / partial_pdu / state NONE of stream sessions, after EVERY event) on generated "
             "histories from 1..50 datagram peers and 0..4 stream peers (TCP endpoint; connect, whole requests, requests cut anywhere in "
@@ -36,7 +44,7 @@ MANIFEST = {
             "the histories run.  UDP and TCP endpoints in the differential runs (the three socket shims coap_socket_accept_tcp / "
             "coap_socket_read / coap_socket_write are interposed; no TLS/WebSocket/DTLS sessions: D9); the idle limit is judged on "
             "datagram endpoints only (D15: coap_new_server_session has no idle accounting); notifications are NON (both observable resources "
-            "are NOTIFY_NON_ALWAYS), confirmable notifications are outside the generated alphabet.  Trusted: Lean kernel (+ propext, Classical.choice, "
+            "are NOTIFY_NON_ALWAYS), confirmable notifications are outside the generated alphabet (Confirmables are pings and separate responses of the application).  Trusted: Lean kernel (+ propext, Classical.choice, "
             "Quot.sound), harness + allocator wrap + oracle, the hand transcription M (checked on the histories run).",
     "design_ref": "DESIGN.md §4 C12, design/C12.md",
 }
@@ -47,7 +55,8 @@ REQUIRED_THEOREMS = ["peer_session_functional_injective", "one_new_one_del_per_s
                      "session_used_after_now_survives", "oldest_idle_evicted_at_limit",
                      "teardown_ledger_empty", "ledger_never_bad", "ledgerOk_iff", "same_peer_same_session",
                      "referenced_session_survives_pass", "open_session_reclaimed_only_after_timeout",
-                     "partial_pdu_hangs_off_live_session", "reclaim_releases_partial_pdu", "teardown_state_empty"]
+                     "partial_pdu_hangs_off_live_session", "reclaim_releases_partial_pdu", "teardown_state_empty",
+                     "any_reply_ends_exchange", "delayed_send_takes_no_reference", "flush_takes_reference"]
 RULE = ("one line = one whole history on a fresh real server context with two UDP endpoints and one TCP endpoint: requests from 1..50 peers "
         "(peers P and P+25 share the remote address/port and differ in the local port only; groups share the remote IP or the "
         "remote port) and, in about a third of the histories, 1..4 stream peers (connect + CSM, whole requests / observe / async / "
@@ -61,7 +70,11 @@ RULE = ("one line = one whole history on a fresh real server context with two UD
         "I/O pass, peer RST / empty ACK for the k-th last notification it received on its session (fresh and stale ids), async "
         "registration/free, delayed (async) NON responses whose handler takes 0 ms .. twice the session timeout when libcoap re-invokes "
         "it from coap_check_async inside an I/O pass (the clock moves on during the pass), I/O passes given a `now` read 0 ms .. "
-        "more than the session timeout earlier, server CON (ping) in the send queue answered by RST or retransmitted to exhaustion, application "
+        "more than the session timeout earlier, server CON (ping) in the send queue answered by RST or retransmitted to exhaustion, "
+        "separate Confirmable responses sent by the application (coap_send) one or several back to back — NSTART = 1: the later ones wait "
+        "in session->delayqueue — while the application / an observation / an async entry refers to the session too, the peer ending "
+        "each exchange with an empty ACK, an ACK with a request code, an ACK with an invalid code class, a Reset, or never "
+        "(retransmissions to give-up), disconnect / teardown with Confirmables still delayed, then releases and time jumps across the session timeout, application "
         "reference/release, session disconnect, resource deletion (also while dirty), max_idle_sessions / session_timeout settings, virtual-time jumps on both sides of every timeout "
         "(retransmission deadlines, session_timeout-1/0/+1), I/O steps, context teardown at any point (always at the end); "
         "non-trivial = distinct history that created at least one session and has at least 4 events")
@@ -210,7 +223,35 @@ def gen_history(rng, big=False):
                 toks.append(rng.choice(["i", "i", "i", "I1", "r%d" % rng.choice(pool), "r%d" % p, "b%d.1.1" % rng.choice(pool)]))
                 if rng.random() < 0.5: toks.append(rng.choice(["i", "r%d" % p, "T1", "T%d" % (timeout * 1000), "I2"]))
             continue
-        if c0 < 0.055:
+        if c0 < 0.10:
+            # Confirmables of the application on the peer's session: one, or several back to back (NSTART = 1: the later
+            # ones wait in the session's delay queue without a reference), while the application / an observation / an
+            # async entry may refer to the session as well; the peer ends the exchanges with an empty ACK, a BAD ACK
+            # (request code, invalid code class), a Reset — or not at all (retransmissions, give-up) —, the application
+            # disconnects or frees the context in between; then the other holders let go and time passes
+            if rng.random() < 0.5: toks.append(rng.choice(["r%d", "r%d", "o%d.0", "a%d"]) % p)
+            if rng.random() < 0.45: toks.append(rng.choice(["+%d", "+%d", "o%d.1", "a%d"]) % p)
+            for _ in range(rng.choice([1, 1, 2, 2, 2, 3, 4])):
+                toks.append(rng.choice(["u%d", "u%d", "u%d", "u%d", "q%d"]) % p)
+                if rng.random() < 0.12: toks.append(rng.choice(["T1", "T1999", "T2000", "i", "r%d" % p]))
+            t = timeout * 1000
+            for _ in range(rng.choice([0, 1, 1, 2, 2, 3, 4])):
+                r = rng.random()
+                if r < 0.55: toks.append("g%d.%d" % (p, rng.choice([0, 0, 1, 1, 2])))
+                elif r < 0.68: toks.append("k%d" % p)
+                elif r < 0.76: toks += ["T%d" % rng.choice([2000, 4000, 8000, 16000, 32000, 62000]), "i"]
+                elif r < 0.82: toks.append("x%d" % p)
+                elif r < 0.88: toks.append("u%d" % p)
+                elif r < 0.92: toks.append("g%d.%d" % (rng.choice(dpool), rng.randrange(3)))
+                elif r < 0.95: toks.append(rng.choice(["i", "I1", "r%d" % p]))
+                else: toks.append(rng.choice(["-%d", "f%d", "d%d.1"]) % p)
+            if rng.random() < 0.7:
+                toks += [x % p for x in rng.sample(["-%d", "-%d", "f%d", "d%d.1", "d%d.0"], rng.randrange(1, 5))]
+            if rng.random() < 0.75:
+                toks += ["T%d" % rng.choice([t, t + 1, max(1, t - 1), 2 * t, 62000, 300000]), "i"]
+                if rng.random() < 0.4: toks.append(rng.choice(["r%d" % p, "o%d.0" % p, "c0", "i", "+%d" % p, "u%d" % p]))
+            continue
+        if c0 < 0.12:
             # an I/O pass whose `now` the application read a little earlier (before the last datagrams were handled)
             x = rng.choice([1, 2, 5, 100, 1000, 2000, timeout * 1000, timeout * 1000 + 1])
             if rng.random() < 0.7:
@@ -234,8 +275,10 @@ def gen_history(rng, big=False):
         elif c < 0.41: toks.append("%s%d.%d" % ("t" if rng.random() < 0.8 else "y", p, 0 if rng.random() < 0.6 else rng.randrange(4)))
         elif c < 0.45: toks.append("a%d" % p)
         elif c < 0.475: toks.append("f%d" % p)
-        elif c < 0.535: toks.append("q%d" % p)
-        elif c < 0.57: toks.append("k%d" % p)
+        elif c < 0.515: toks.append("q%d" % p)
+        elif c < 0.535: toks.append("u%d" % p)
+        elif c < 0.555: toks.append("k%d" % p)
+        elif c < 0.57: toks.append("g%d.%d" % (p, rng.randrange(3)))
         elif c < 0.63: toks.append("+%d" % p)
         elif c < 0.685: toks.append("-%d" % p)
         elif c < 0.715: toks.append("x%d" % p)
@@ -280,17 +323,20 @@ def split_line(s):
         tok, outcome, E, R, I, L, Ck = w
         evs = [] if E == "E-" else E[1:].split(",")
         refs = None
+        dq = {}          # idx -> length of the session's delay queue (Confirmables waiting for their NSTART slot)
         if R != "R-":
             refs = {}
             for r in R[1:].split(","):
                 i, _, rest = r.partition("=")
                 a, _, b = rest.partition("@")
                 refs[i] = (int(a), int(b.partition("#")[0]))
+                m = re.search(r"\^(\d+)", b)
+                if m: dq[i] = int(m.group(1))
         idle = tuple(int(x) for x in I[1:].split("/"))
         if len(idle) != 3:
             raise ValueError("bad idle counts %r" % I)
         segs.append((tok, outcome, evs, refs if refs is not None else {}, idle, tuple(int(x) for x in L[1:].split("/")),
-                     int(Ck[1:])))
+                     int(Ck[1:]), dq))
     return segs, fields
 
 
@@ -321,7 +367,8 @@ def oracle(inp, impl):
     closed = set()       # sessions of stream peers whose connection is gone (the peer closed it: `z`; the application: `x`) —
                          # known from the INPUT and the session-new events alone
     nxt = 0
-    for k, (tok, outcome, evs, refs, idle, lv, clock) in enumerate(segs):
+    prev_dq = {}
+    for k, (tok, outcome, evs, refs, idle, lv, clock, dq) in enumerate(segs):
         c = tok[0]
         final = c == "F"
         if c == "T": now += int(tok[1:])
@@ -331,8 +378,8 @@ def oracle(inp, impl):
         # before the pass of a datagram event starts); `I<d>` hands the pass an older one.  Inside the pass the clock may move on
         # (the handler of a delayed response takes time): the harness prints the clock after every event
         pass_now = max(0, now - int(tok[1:])) if c == "I" else now
-        runs_pass = c in "irodaktybInpez" and not outcome.startswith("skip")
-        creator = peer_of(tok) if c in "rodaktybnpez" else None
+        runs_pass = c in "irodaktgybInpez" and not outcome.startswith("skip")
+        creator = peer_of(tok) if c in "rodaktgybnpez" else None
         stream = creator is not None and creator >= 50
         # the connection of a stream peer ends: from now on its session may be reclaimed as soon as nothing refers to it
         if c in "zx" and not outcome.startswith("skip") and peer_of(tok) >= 50 and peer_of(tok) in owner:
@@ -384,16 +431,18 @@ def oracle(inp, impl):
                 sorted(refs), sorted(live), k, tok)
         # references = holders, on the implementation's own numbers: every holder in this alphabet is a subscription, a
         # queued message, an async entry or a reference the application took, and each holds exactly one reference
-        if not final and sum(r for r, _ in refs.values()) != sum(lv[1:]):
+        # (a coap_queue_t that waits in a session's delay queue is not a queued message yet: it holds no reference)
+        ndelayed = sum(dq.values())
+        if not final and sum(r for r, _ in refs.values()) != sum(lv[1:]) - ndelayed:
             return ("the reference counts of the live sessions add up to %d but %d subscriptions + %d queued messages + %d async "
                     "entries + %d application references = %d holders exist (event %d, %s)" % (
-                        sum(r for r, _ in refs.values()), lv[1], lv[2], lv[3], lv[4], sum(lv[1:]), k, tok))
+                        sum(r for r, _ in refs.values()), lv[1], lv[2] - ndelayed, lv[3], lv[4], sum(lv[1:]) - ndelayed, k, tok))
         # eviction at the idle limit: the oldest idle session of that endpoint goes
         evicted = []
         # (SPEC DECISION D15: the idle limit is that of coap_endpoint_get_session, i.e. of datagram endpoints)
         if creator is not None and not stream and any(e.startswith("N") for e in evs):
             ep = creator // 25
-            idle_before = [(i, prev_refs[i][1]) for i in prev_refs if prev_refs[i][0] == 0 and prev_live.get(i, -1) // 25 == ep]
+            idle_before = [(i, prev_refs[i][1]) for i in prev_refs if prev_refs[i][0] == 0 and not prev_dq.get(i) and prev_live.get(i, -1) // 25 == ep]
             pre = evs[: next(j for j, e in enumerate(evs) if e.startswith("N"))]        # deletions BEFORE the creation
             victims = [strip_marks(e[1:]) for e in pre if e.startswith("D")]
             if max_idle > 0 and len(idle_before) >= max_idle:
@@ -432,7 +481,7 @@ def oracle(inp, impl):
         # reclamation: after an I/O pass no unreferenced session is older than the timeout
         if runs_pass:
             for i, (ref, last) in refs.items():
-                if ref == 0 and last + timeout * 1000 <= pass_now:
+                if ref == 0 and not dq.get(i) and last + timeout * 1000 <= pass_now:
                     return "session %s idle since %d still alive after an I/O pass with now = %d (timeout %ds) (event %d, %s)" % (
                         i, last, pass_now, timeout, k, tok)
         # the clock never runs backwards, and only a pass (a handler inside it) or `T` moves it
@@ -445,6 +494,7 @@ def oracle(inp, impl):
             if lv[:3] != (0, 0, 0):
                 return "after coap_free_context %d sessions / %d subscriptions / %d queue nodes are still allocated" % lv[:3]
         prev_refs = refs
+        prev_dq = dq
         prev_live = dict(live)
     if not segs or segs[-1][0][0] != "F":
         return "history did not end with the context being freed"
@@ -490,7 +540,7 @@ def ref_vs_holders(iseg, mseg):
         (b,), _ = split_line(mseg)
     except Exception:
         return None
-    if "!holds" in mseg or a[:3] != b[:3] or set(a[3]) != set(b[3]):
+    if "!holds" in mseg or "!dq" in mseg or a[:3] != b[:3] or set(a[3]) != set(b[3]) or a[7] != b[7]:
         return None
     if any(a[3][i][1] != b[3][i][1] for i in a[3]):
         return None
@@ -508,7 +558,7 @@ def nontrivial(c):
 
 def classify(c):
     n = len(c["input"].split()) - 1
-    peers = {t[1:].split(".")[0] for t in c["input"].split()[1:] if t[0] in "rodafqk+-xtybnpez"}
+    peers = {t[1:].split(".")[0] for t in c["input"].split()[1:] if t[0] in "rodafqkug+-xtybnpez"}
     return "ev<=%d peers<=%d" % (next(b for b in (8, 20, 45, 80, 10 ** 6) if n <= b), next(b for b in (1, 3, 8, 20, 50) if len(peers) <= b))
 
 
